@@ -22,7 +22,8 @@ RULE = (
     "one session per category is run in that order from a pristine copy, plus the all-at-once session; "
     "ast.dump(ast.parse(final file)) must be identical across all of them. Exhaustive over orders for each "
     "generated program. non-trivial = k >= 2 and at least one site with two pending categories. "
-    "Arm orders_assert: the same with plain `assert` bodies (create, fix and update make a failing "
+    "Arm orders_mixed: one container mixing managed elements with inner snapshots, Is() and f-strings (the "
+    "generator of C10), all orders. Arm orders_assert: the same with plain `assert` bodies (create, fix and update make a failing "
     "comparison succeed so that the rest of the test is still observed; orders which run trim before a "
     "pending fix/create are left out because a trim-only run legitimately stops at the failing assert)."
 )
@@ -130,6 +131,112 @@ def check_pytest(case):
             "sample": {"pending": pending, "before": src, "after": together.decode()}}
 
 
+def _strategy_mixed(tier):
+    from .c10 import _container
+
+    return st.builds(lambda c: {"c": c}, _container(0, tier))
+
+
+def check_mixed(case):
+    """containers that mix managed elements with inner snapshots / Is() / f-strings (the generator of C10): an
+    inner snapshot has changes of its own, which must be found in the same run as the fix of its parent"""
+    import warnings
+
+    from .c10 import render_new, render_old
+
+    c = case["c"]
+    decls = []
+    old_text = render_old(c, decls)
+    src = ("from inline_snapshot import snapshot, Is\nfrom dirty_equals import IsInt, IsStr, AnyThing\n"
+           "from vf_prelude import *\n\n" + "\n".join(decls) + "\n\n\ndef test_a():\n"
+           f"    assert {render_new(c)} == snapshot({old_text})\n")
+    b0 = src.encode()
+    with warnings.catch_warnings():
+        warnings.simplefilter("ignore")
+        probe = _run(b0, (), "probe", src)
+        pending = sorted(probe.reported)
+        if len(pending) < 2:
+            return {"nontrivial": False, "classes": [f"k={len(pending)}"]}
+        allatonce = _run(b0, pending, "all-at-once", src).files_after["test_a.py"]
+        ref = _dump(allatonce, "all-at-once", src)
+        n_runs = 1
+        for perm in itertools.permutations(pending):
+            cur = b0
+            for cat in perm:
+                cur = _run(cur, [cat], f"order {perm} step {cat}", src).files_after["test_a.py"]
+                n_runs += 1
+            if _dump(cur, f"order {perm}", src) != ref:
+                raise Violation("order-dependent:mixed",
+                                f"pending={pending} order {perm} differs from all-at-once\n--- original\n{src}\n"
+                                f"--- all at once\n{allatonce.decode()}\n--- order {perm}\n{cur.decode()}")
+    has_inner = "snapshot(" in old_text
+    return {"nontrivial": has_inner, "classes": [f"k={len(pending)}", "mixed", "inner" if has_inner else "no-inner"],
+            "extra": {"sessions": n_runs}, "sample": {"pending": pending, "before": src, "after": allatonce.decode()}}
+
+
+@st.composite
+def _strategy_inner(draw, tier):
+    """an outer == snapshot (list / dict / constructor call) whose elements are managed values or inner
+    snapshots, each in a state that makes one category pending"""
+    n = draw(st.sampled_from([2, 3, 4]))
+    elems = [draw(st.sampled_from(["same", "fix", "update", "inner-create", "inner-fix", "inner-update", "inner-same",
+                                   "inner-create", "inner-fix"])) for _ in range(n)]
+    return {"elems": elems, "shape": draw(st.sampled_from(["list", "dict", "tuple", "call"])),
+            "longer": draw(st.sampled_from([False, False, True]))}
+
+
+def check_inner(case):
+    import warnings
+
+    olds, news = [], []
+    for i, k in enumerate(case["elems"]):
+        v = 10 + i
+        news.append(str(v))
+        olds.append({"same": str(v), "fix": str(v + 100), "update": f"{v - 1}+1", "inner-create": "snapshot()",
+                     "inner-fix": f"snapshot({v + 100})", "inner-update": f"snapshot({v - 1}+1)",
+                     "inner-same": f"snapshot({v})"}[k])
+    if case["longer"]:
+        news.append("99")       # the observed value has one more element: the lengths differ
+    shape = case["shape"]
+    if shape == "call":
+        olds, news = olds[:2], news[:2]
+
+    def wrap(xs):
+        if shape == "list":
+            return "[" + ", ".join(xs) + "]"
+        if shape == "tuple":
+            return "(" + ", ".join(xs) + ",)"
+        if shape == "dict":
+            return "{" + ", ".join(f"'k{i}': {x}" for i, x in enumerate(xs)) + "}"
+        return "Point(" + ", ".join(f"{n}={x}" for n, x in zip("xy", xs)) + ")"
+
+    src = ("from inline_snapshot import snapshot\nfrom vf_prelude import *\n\n\ndef test_a():\n"
+           f"    assert {wrap(news)} == snapshot({wrap(olds)})\n")
+    b0 = src.encode()
+    with warnings.catch_warnings():
+        warnings.simplefilter("ignore")
+        probe = _run(b0, (), "probe", src)
+        pending = sorted(probe.reported)
+        if len(pending) < 2:
+            return {"nontrivial": False, "classes": [f"k={len(pending)}"]}
+        allatonce = _run(b0, pending, "all-at-once", src).files_after["test_a.py"]
+        ref = _dump(allatonce, "all-at-once", src)
+        n_runs = 1
+        for perm in itertools.permutations(pending):
+            cur = b0
+            for cat in perm:
+                cur = _run(cur, [cat], f"order {perm} step {cat}", src).files_after["test_a.py"]
+                n_runs += 1
+            if _dump(cur, f"order {perm}", src) != ref:
+                raise Violation("order-dependent:inner",
+                                f"pending={pending} order {perm} differs from all-at-once\n--- original\n{src}\n"
+                                f"--- all at once\n{allatonce.decode()}\n--- order {perm}\n{cur.decode()}")
+    inner = any(k.startswith("inner-") and k != "inner-same" for k in case["elems"])
+    outer = any(k in ("fix", "update") for k in case["elems"]) or case["longer"]
+    return {"nontrivial": inner and outer, "classes": [f"k={len(pending)}", "inner", shape],
+            "extra": {"sessions": n_runs}, "sample": {"pending": pending, "before": src, "after": allatonce.decode()}}
+
+
 def _strategy_assert(tier):
     return gp.program_with_prev(tier, max_sites=4, min_sites=2, styles=("assert",), p_missing=0.25,
                                 ops=("eq", "in", "getitem", "le", "ge", "eq")).map(lambda p: {"prog": p})
@@ -144,6 +251,8 @@ ARMS = [
            budget={"quick": 200, "thorough": 15000}),
     HypArm("orders_assert", _strategy_assert, check_assert, signature=positional_signature,
            budget={"quick": 120, "thorough": 8000}),
+    HypArm("orders_mixed", _strategy_mixed, check_mixed, budget={"quick": 300, "thorough": 10000}),
+    HypArm("orders_inner", _strategy_inner, check_inner, budget={"quick": 200, "thorough": 5000}),
     HypArm("together_real_session", _strategy, check_pytest, signature=positional_signature,
            budget={"quick": 64, "thorough": 2000}, shrink=False),
 ]
